@@ -49,6 +49,10 @@ structure Sub where
   fresh : Bool := true
   waitKey : Bool := true
   ws : Bool := false
+  /-- ghost: what was written when the subscriber stopped being fresh -/
+  pro : List Bytes := []
+  /-- ghost: index in `pubLog` of the first live message (none while fresh or waiting) -/
+  start : Option Nat := none
 deriving Repr, DecidableEq
 
 structure Merge where
@@ -69,6 +73,12 @@ structure St where
   nextRecord : Nat := 0
   /-- every write, in order: consumer kind, id, bytes -/
   out : List (Kind × Nat × Bytes) := []
+  /-- ghost: every non-empty message broadcast so far (all incarnations), in order -/
+  pubLog : List InMsg := []
+  /-- ghost: index in `pubLog` of the first message still pending in the merge writer -/
+  mergeFrom : Nat := 0
+  /-- ghost: every subscriber id ever admitted -/
+  usedIds : List Nat := []
 deriving Repr
 
 def init (cfg : Cfg) : St :=
@@ -129,10 +139,11 @@ def St.toRtmpSubs (s : St) (bs : List Bytes) : St :=
 /-- `MergeWriter.flush` via `onWritev = writev2RtmpSubSessions` -/
 def St.mergeFlushNow (s : St) : St :=
   let s1 := s.toRtmpSubs s.merge.bs
-  { s1 with merge := {} }
+  { s1 with merge := {}, mergeFrom := s.pubLog.length }
 
 /-- `MergeWriter.Flush` -/
-def St.mergeFlush (s : St) : St := if s.merge.currSize > 0 then s.mergeFlushNow else s
+def St.mergeFlush (s : St) : St :=
+  if s.merge.currSize > 0 then s.mergeFlushNow else { s with mergeFrom := s.pubLog.length }
 
 /-- `MergeWriter.Write` -/
 def St.mergeWrite (s : St) (b : Bytes) : St :=
@@ -144,83 +155,101 @@ def prologue (g : GopCache.T) : List Bytes :=
 
 /-! ### broadcastByRtmpMsg -/
 
-/-- the loop over `rtmpSubSessionSet`; `i` walks the subscriber list. While `MergeWriter.Flush`
-    runs the subscriber's flags are still the old ones (fresh / waiting), so the flush skips it. -/
-def rtmpLoop (key : Bool) : Nat → Nat → St → St
-  | 0, _, s => s
-  | fuel+1, i, s =>
-    match s.rtmpSubs[i]? with
-    | none => s
-    | some sub =>
-      let s1 :=
-        if sub.fresh then
-          let sA := s.writeAll .rtmp sub.id (prologue s.rtmpGop)
-          let sB := if s.cfg.mergeSize > 0 then sA.mergeFlush else sA
-          let w := if GopCache.gopCount s.rtmpGop > 0 then false else sub.waitKey
-          { sB with rtmpSubs := sB.rtmpSubs.set i { sub with fresh := false, waitKey := w } }
-        else s
-      match s1.rtmpSubs[i]? with
-      | none => s1
-      | some sub1 =>
-        let s2 :=
-          if sub1.waitKey && key then
-            let sC := if s.cfg.mergeSize > 0 then s1.mergeFlush else s1
-            { sC with rtmpSubs := sC.rtmpSubs.set i { sub1 with waitKey := false } }
-          else s1
-        rtmpLoop key fuel (i + 1) s2
+def St.getRtmp (s : St) (id : Nat) : Option Sub := s.rtmpSubs.find? (·.id == id)
+def St.modRtmp (s : St) (id : Nat) (f : Sub → Sub) : St :=
+  { s with rtmpSubs := s.rtmpSubs.map fun x => if x.id == id then f x else x }
+def St.getFlv (s : St) (id : Nat) : Option Sub := s.flvSubs.find? (·.id == id)
+def St.modFlv (s : St) (id : Nat) (f : Sub → Sub) : St :=
+  { s with flvSubs := s.flvSubs.map fun x => if x.id == id then f x else x }
 
-/-- the loop over `httpflvSubSessionSet` -/
-def flvLoop (key : Bool) (tag : Bytes) : Nat → Nat → St → St
-  | 0, _, s => s
-  | fuel+1, i, s =>
-    match s.flvSubs[i]? with
-    | none => s
-    | some sub =>
-      let (s1, sub1) :=
-        if sub.fresh then
-          let sA := s.writeFlvAll sub (prologue s.flvGop)
-          let w := if GopCache.gopCount s.flvGop > 0 then false else sub.waitKey
-          (sA, { sub with fresh := false, waitKey := w })
-        else (s, sub)
-      let (s2, sub2) :=
-        if sub1.waitKey then
-          if key then (s1.writeFlv sub1 tag, { sub1 with waitKey := false }) else (s1, sub1)
-        else (s1.writeFlv sub1 tag, sub1)
-      flvLoop key tag fuel (i + 1) { s2 with flvSubs := s2.flvSubs.set i sub2 }
+/-- one iteration of the loop over `rtmpSubSessionSet`. While `MergeWriter.Flush` runs the
+    subscriber's flags are still the old ones (fresh / waiting), so the flush skips it. -/
+def rtmpOne (key : Bool) (s : St) (id : Nat) : St :=
+  match s.getRtmp id with
+  | none => s
+  | some sub =>
+    let s1 :=
+      if sub.fresh then
+        let pro := prologue s.rtmpGop
+        let sA := s.writeAll .rtmp sub.id pro
+        let sB := if s.cfg.mergeSize > 0 then sA.mergeFlush else sA
+        let w := if GopCache.gopCount s.rtmpGop > 0 then false else sub.waitKey
+        sB.modRtmp id fun x => { x with fresh := false, waitKey := w, pro := pro,
+                                        start := if w then none else some s.pubLog.length }
+      else s
+    match s1.getRtmp id with
+    | none => s1
+    | some sub1 =>
+      if sub1.waitKey && key then
+        let sC := if s.cfg.mergeSize > 0 then s1.mergeFlush else s1
+        sC.modRtmp id fun x => { x with waitKey := false, start := some s.pubLog.length }
+      else s1
 
+def rtmpLoop (key : Bool) (s : St) : St := (s.rtmpSubs.map (·.id)).foldl (rtmpOne key) s
+
+/-- one iteration of the loop over `httpflvSubSessionSet` (pubLog already holds the current message) -/
+def flvOne (key : Bool) (tag : Bytes) (s : St) (id : Nat) : St :=
+  match s.getFlv id with
+  | none => s
+  | some sub =>
+    let n := s.pubLog.length - 1
+    let s1 :=
+      if sub.fresh then
+        let pro := prologue s.flvGop
+        let w := if GopCache.gopCount s.flvGop > 0 then false else sub.waitKey
+        (s.writeFlvAll sub pro).modFlv id fun x =>
+          { x with fresh := false, waitKey := w, pro := pro, start := if w then none else some n }
+      else s
+    match s1.getFlv id with
+    | none => s1
+    | some sub1 =>
+      if sub1.waitKey then
+        if key then (s1.writeFlv sub1 tag).modFlv id fun x => { x with waitKey := false, start := some n }
+        else s1
+      else s1.writeFlv sub1 tag
+
+def flvLoop (key : Bool) (tag : Bytes) (s : St) : St := (s.flvSubs.map (·.id)).foldl (flvOne key tag) s
+
+/-- append the message to the (ghost) publish log and hand it to the RTMP subscribers:
+    directly, or through the merge writer -/
+def forward (s0 : St) (m : InMsg) : St :=
+  let s1 := { s0 with pubLog := s0.pubLog ++ [m] }
+  if s1.rtmpSubs.isEmpty then s1
+  else if s1.cfg.mergeSize == 0 then s1.toRtmpSubs [chunksWithoutSdf m]
+  else s1.mergeWrite (chunksWithoutSdf m)
+
+/-- FLV recording -/
+def recordStage (s : St) (m : InMsg) : St :=
+  match s.recording with
+  | some r => s.write .record r (tagWithoutSdf m)
+  | none => s
+
+def rtmpCacheStage (s : St) (m : InMsg) : St :=
+  if s.cfg.rtmpCache then
+    let g := (GopCache.feed s.rtmpGop m.typ m.payload (chunksWithoutSdf m)).1
+    let g := if m.typ == 18 then GopCache.setMetadata g (chunksWithSdf m) (chunksWithoutSdf m) else g
+    { s with rtmpGop := g }
+  else s
+
+def flvCacheStage (s : St) (m : InMsg) : St :=
+  if s.cfg.flvCache then
+    let g := (GopCache.feed s.flvGop m.typ m.payload (tagWithoutSdf m)).1
+    let g := if m.typ == 18 then GopCache.setMetadata g (tagWithoutSdf m) (tagWithoutSdf m) else g
+    { s with flvGop := g }
+  else s
+
+def statStage (s : St) (m : InMsg) : St :=
+  if !s.videoCodecSet && (Classify.isAvcKeySeqHeader m.typ m.payload || Classify.isHevcKeySeqHeader m.typ m.payload)
+  then { s with videoCodecSet := true } else s
+
+/-- `broadcastByRtmpMsg`, in the order of the Go: RTMP subscribers, HTTP-FLV subscribers, FLV recording,
+    caches, stat -/
 def broadcast (s : St) (m : InMsg) : St :=
   if m.payload.isEmpty then s else
   let key := Classify.isVideoKeyNalu m.typ m.payload
-  let chunks := chunksWithoutSdf m
-  let tag := tagWithoutSdf m
-  -- rtmp subscribers
-  let s1 := rtmpLoop key s.rtmpSubs.length 0 s
-  let s2 :=
-    if s1.rtmpSubs.isEmpty then s1
-    else if s1.cfg.mergeSize == 0 then s1.toRtmpSubs [chunks]
-    else s1.mergeWrite chunks
-  -- httpflv subscribers
-  let s3 := flvLoop key tag s2.flvSubs.length 0 s2
-  -- flv recording
-  let s4 := match s3.recording with
-    | some r => s3.write .record r tag
-    | none => s3
-  -- caches
-  let s5 :=
-    if s4.cfg.rtmpCache then
-      let g := (GopCache.feed s4.rtmpGop m.typ m.payload chunks).1
-      let g := if m.typ == 18 then GopCache.setMetadata g (chunksWithSdf m) chunks else g
-      { s4 with rtmpGop := g }
-    else s4
-  let s6 :=
-    if s5.cfg.flvCache then
-      let g := (GopCache.feed s5.flvGop m.typ m.payload tag).1
-      let g := if m.typ == 18 then GopCache.setMetadata g tag tag else g
-      { s5 with flvGop := g }
-    else s5
-  -- stat
-  if !s6.videoCodecSet && (Classify.isAvcKeySeqHeader m.typ m.payload || Classify.isHevcKeySeqHeader m.typ m.payload)
-  then { s6 with videoCodecSet := true } else s6
+  let s2 := forward (rtmpLoop key s) m
+  let s3 := flvLoop key (tagWithoutSdf m) s2
+  statStage (flvCacheStage (rtmpCacheStage (recordStage s3 m) m) m) m
 
 /-! ### events -/
 
@@ -237,11 +266,15 @@ def step (s : St) : Ev → St
              rtmpGop := GopCache.clear s.rtmpGop, flvGop := GopCache.clear s.flvGop }
   | .msg m => if s.hasIn then broadcast s m else s
   | .join .rtmp id =>
-    { s with rtmpSubs := s.rtmpSubs ++ [{ id := id, waitKey := s.videoCodecSet }] }
+    if s.usedIds.contains id then s else
+    { s with rtmpSubs := s.rtmpSubs ++ [{ id := id, waitKey := s.videoCodecSet }], usedIds := id :: s.usedIds }
   | .join .flv id =>
-    St.writeFlv { s with flvSubs := s.flvSubs ++ [{ id := id, waitKey := s.videoCodecSet }] } { id := id } Gen.flvHeader
+    if s.usedIds.contains id then s else
+    St.writeFlv { s with flvSubs := s.flvSubs ++ [{ id := id, waitKey := s.videoCodecSet }], usedIds := id :: s.usedIds }
+      { id := id } Gen.flvHeader
   | .join .wsflv id =>
-    St.writeFlv { s with flvSubs := s.flvSubs ++ [{ id := id, waitKey := s.videoCodecSet, ws := true }] }
+    if s.usedIds.contains id then s else
+    St.writeFlv { s with flvSubs := s.flvSubs ++ [{ id := id, waitKey := s.videoCodecSet, ws := true }], usedIds := id :: s.usedIds }
       { id := id, ws := true } Gen.flvHeader
   | .join .record _ => s
   | .leave .rtmp id => { s with rtmpSubs := s.rtmpSubs.filter (·.id != id) }
